@@ -48,6 +48,7 @@ type EStep struct {
 	R      int     `json:"txn,omitempty"`
 	Seq    int     `json:"seq"`                 // sequence id of the stream (req / resp); err: Stream.OnError knows the transaction id only
 	Ask    bool    `json:"ask_early,omitempty"` // req: carries the header that makes a "chain" flow answer it after admission
+	At     *SAttr  `json:"stream,omitempty"`    // req / resp: method, path, headers (of the stream's own direction), query; nil: GET <host>/x, no headers
 	Dt     int64   `json:"dt_ns,omitempty"`
 	Probe  bool    `json:"probe,omitempty"`
 	Trace  []Pev   `json:"processors"`
@@ -170,6 +171,9 @@ func finishRes(o *c.Out, rr *resRun) {
 		o.Count(fmt.Sprintf("res:some-stream-with-seq!=id=%v", other))
 		if k.Cfg.Foreign > 0 {
 			o.Count("res:rate-quota-present")
+		}
+		if len(k.Cfg.Filters) > 0 {
+			o.Count("res:quotas-declared-with-filters")
 		}
 		for _, e := range rr.x.opErrs {
 			o.Count("res:IMPLEMENTATION-ERROR " + e)
@@ -405,6 +409,12 @@ func genTxnHistory(o *c.Out, r *c.Rng) {
 	if r.Chance(1, 3) {
 		k.Cfg.Foreign = 1
 	}
+	if r.Chance(1, 3) {
+		// quotas declared with header / method / query / narrower-URL filters (children with and
+		// without a filter of their own): at this level no flow is selected — the operations are
+		// the same whatever the filters say
+		genFilters(r, &k.Cfg)
+	}
 	rr := startRes(k)
 	n := r.Range(2, 5)
 	txns := make([]*txn, n)
@@ -504,6 +514,9 @@ func genOpSoup(o *c.Out, r *c.Rng) {
 	if r.Chance(1, 4) {
 		k.Cfg.Foreign = 1
 	}
+	if r.Chance(1, 4) {
+		genFilters(r, &k.Cfg)
+	}
 	rr := startRes(k)
 	n := r.Range(2, 5)
 	names := []string{"getq", "getq", "inc", "inc", "allowed", "allowed", "allowed", "allowed", "dec", "dec", "dec", "drop", "drop", "finish"}
@@ -598,7 +611,7 @@ func (er *engRun) logOp(r, seq int, name string, q, v int, probe bool) {
 func (er *engRun) do(s EStep) EStep {
 	switch s.Kind {
 	case "req", "resp":
-		s.Trace, s.Early, s.Err = er.x.txn(s.R, s.Seq, s.Kind == "resp", s.Ask)
+		s.Trace, s.Early, s.Err = er.x.txn(s.R, s.Seq, s.Kind == "resp", s.Ask, s.At)
 		for _, p := range s.Trace {
 			switch p.Kind {
 			case "inc":
@@ -690,9 +703,14 @@ func coqPev(p Pev) string {
 
 func coqEng(k *EngCase) string {
 	items := []string{}
+	attrs := []string{}
 	for _, s := range k.Steps {
+		for len(attrs) < len(items) {
+			attrs = append(attrs, "None")
+		}
 		switch s.Kind {
 		case "req", "resp":
+			attrs = append(attrs, c.Some(coqAttr(s.At, s.Kind == "resp")))
 			verd := []int64{}
 			for _, p := range s.Trace {
 				if p.Kind == "lim" {
@@ -717,7 +735,10 @@ func coqEng(k *EngCase) string {
 			}
 		}
 	}
-	return c.Tuple(k.Cfg.Cfg.coq(), c.List(items))
+	for len(attrs) < len(items) {
+		attrs = append(attrs, "None")
+	}
+	return c.Tuple(k.Cfg.Cfg.coqFilters(), c.List(attrs), c.Tuple(k.Cfg.Cfg.coq(), c.List(items)))
 }
 
 func finishEng(o *c.Out, er *engRun) {
@@ -782,6 +803,7 @@ func finishEng(o *c.Out, er *engRun) {
 		}
 	}
 	o.Count(fmt.Sprintf("eng:some-stream-with-seq!=id=%v", seqs))
+	countFilters(o, k)
 }
 
 // errLeaves counts, over the processors the engine executed, the (transaction,
@@ -884,7 +906,7 @@ func replayEng(o *c.Out, old EngCase) {
 	k := &EngCase{Cfg: old.Cfg}
 	er := startEng(k)
 	for _, s := range old.Steps {
-		er.do(EStep{Kind: s.Kind, R: s.R, Seq: s.Seq, Ask: s.Ask, Dt: s.Dt, Probe: s.Probe})
+		er.do(EStep{Kind: s.Kind, R: s.R, Seq: s.Seq, Ask: s.Ask, At: s.At, Dt: s.Dt, Probe: s.Probe})
 	}
 	finishEng(o, er)
 }
@@ -951,24 +973,45 @@ func genEngHistory(o *c.Out, r *c.Rng) {
 		}
 	}
 	chain := k.Cfg.Style == "chain"
+	// quota filters with headers / methods / query parameters / a narrower URL (1/2)
+	filtered := false
+	if r.Chance(1, 2) {
+		filtered = genEngFilters(r, &k.Cfg)
+	}
+	guard := k.Cfg.guard()
 	er := startEng(k)
 	n := r.Range(2, 5)
 	next := 0
 	open := []int{}
 	seqOf := map[int]int{}
+	reqAt := map[int]*SAttr{}
+	respOf := func(t int) *SAttr {
+		if !filtered {
+			return nil
+		}
+		if a, ok := reqAt[t]; ok && a != nil {
+			b := respAttr(r, *a)
+			return &b
+		}
+		b := respAttr(r, aimAttr(r, &k.Cfg.Cfg, guard))
+		return &b
+	}
 	dts := []int64{sec - deltaNs, sec - deltaNs - 1, sec - deltaNs + 1, deltaNs, deltaNs - 1, deltaNs + 1, sec, sec / 2, 2 * sec, 1}
 	for step, budget := 0, r.Range(5, 16); step < budget; step++ {
 		switch roll := r.Intn(100); {
 		case roll < 40 && next < n:
 			seqOf[next] = pickSeq(r, next)
-			s := er.do(EStep{Kind: "req", R: next, Seq: seqOf[next], Ask: chain && r.Chance(2, 5)})
+			if filtered {
+				reqAt[next] = k.Cfg.pickReq(r, r.Chance(1, 4))
+			}
+			s := er.do(EStep{Kind: "req", R: next, Seq: seqOf[next], Ask: chain && r.Chance(2, 5), At: reqAt[next]})
 			if !s.Early && s.Err == "" {
 				open = append(open, next)
 			}
 			next++
 		case roll < 60 && len(open) > 0:
 			i := r.Intn(len(open))
-			er.do(EStep{Kind: "resp", R: open[i], Seq: seqOf[open[i]]})
+			er.do(EStep{Kind: "resp", R: open[i], Seq: seqOf[open[i]], At: respOf(open[i])})
 			open = append(open[:i], open[i+1:]...)
 		case roll < 70 && len(open) > 0:
 			i := r.Intn(len(open))
@@ -982,7 +1025,7 @@ func genEngHistory(o *c.Out, r *c.Rng) {
 				sq = t
 			}
 			if r.Chance(1, 2) {
-				er.do(EStep{Kind: "resp", R: t, Seq: sq})
+				er.do(EStep{Kind: "resp", R: t, Seq: sq, At: respOf(t)})
 			} else {
 				er.do(EStep{Kind: "err", R: t, Seq: t})
 			}
@@ -993,7 +1036,7 @@ func genEngHistory(o *c.Out, r *c.Rng) {
 	for _, t := range open {
 		switch r.Intn(5) {
 		case 0, 1:
-			er.do(EStep{Kind: "resp", R: t, Seq: seqOf[t]})
+			er.do(EStep{Kind: "resp", R: t, Seq: seqOf[t], At: respOf(t)})
 		case 2:
 			er.do(EStep{Kind: "err", R: t, Seq: t})
 		}
@@ -1011,18 +1054,6 @@ func genEngHistory(o *c.Out, r *c.Rng) {
 		er.do(EStep{Kind: "adv", Dt: (mt+mg)*sec + sec + sec/2})
 	}
 	np := int64(1 << 30)
-	var guard []int
-	switch {
-	case chain: // every concurrency quota guards the URL: referenced by the flow or not
-		for q := range k.Cfg.Rows {
-			guard = append(guard, q)
-		}
-	default:
-		guard = k.Cfg.chain(k.Cfg.Limiter)
-		if k.Cfg.Style == "two" {
-			guard = append(guard, k.Cfg.chain(k.Cfg.Limiter2)...)
-		}
-	}
 	for _, x := range guard {
 		if k.Cfg.Rows[x].Max < np {
 			np = k.Cfg.Rows[x].Max
@@ -1032,7 +1063,11 @@ func genEngHistory(o *c.Out, r *c.Rng) {
 		np++
 	}
 	for i := int64(0); i < np; i++ {
-		er.do(EStep{Kind: "req", R: 100 + int(i), Seq: 100 + int(i), Probe: true})
+		var at *SAttr
+		if filtered {
+			at = k.Cfg.pickReq(r, false)
+		}
+		er.do(EStep{Kind: "req", R: 100 + int(i), Seq: 100 + int(i), Probe: true, At: at})
 	}
 	finishEng(o, er)
 }
@@ -1221,7 +1256,7 @@ func genCorpus(o *c.Out) {
 func main() {
 	o := c.NewOut("C02")
 	o.DeclareSuite("res", "From Verif Require Import C02.Model C02.Model2.", "case_res2", "run_res2h")
-	o.DeclareSuite("eng", "From Verif Require Import C02.Model C02.Model2.", "case_eng2", "run_eng2h")
+	o.DeclareSuite("eng", "From Verif Require Import C02.Model C02.Model2 C02.Model3.", "case_eng3", "run_eng3h")
 	o.Rule("res: quota forests of 1-3 concurrent quotas (max 0-3, ttl 1-3 s, up to 3 levels, an unrelated second root), " +
 		"2-5 transactions; generated interleavings, at operation granularity, of limiter chains followed by response / early answer / " +
 		"proxy error / abandon, unstructured operation sequences, and all interleavings of small programs; clock readings aimed " +
@@ -1233,6 +1268,12 @@ func main() {
 		"every end (response, early answer, proxy error, abandon + expiry). " +
 		"streams (both suites): every request / response stream carries a sequence id = its own transaction id (6/10), the id of an earlier " +
 		"transaction (retry: overlapping or not), or a stamp several transactions share; the proxy-error stream has sequence id = transaction id. " +
+		"filters: in half of the random engine histories (and a fixed corpus: 9 filter shapes x 3 flow shapes x 5 ends, each with a request outside the filter) the concurrency quotas carry " +
+		"filters with headers (alternatives, several keys, mixed case) / methods / query parameters / a narrower URL, children with and without a filter " +
+		"of their own; the user flow carries the same filter or the host alone; requests carry method, path, headers, query (one aspect off in 1/4), " +
+		"responses carry the request's URL and method and the PROVIDER's headers (content-type; an echo of the request headers 1/8, the same names " +
+		"with other values 1/8, none 1/8); the model predicts which system start / end processors each call selects; res: filters are declared (loader), " +
+		"no flow selection exists at that level. " +
 		"distinct = distinct (configuration, steps, observations); non-trivial = the history contains a refusal and a slot being given back")
 	var raw struct {
 		Gen   string `json:"generator"`
